@@ -244,24 +244,58 @@ def oracle_optimiser(ctx: Ctx, case):
     policy = _policy(kind, case["pkey"])
     buf, *_ = _buffer(case, policy)
     params = eqx.filter(policy, eqx.is_inexact_array)
-    opt_state = algo.optimizer.init(params)
     tags = {"algo": name, "kind": kind}
-    new_policy, _ = _train_step(algo, name, policy, opt_state, buf, jr.key(0))
-    g = eqx.filter_grad(_jnp_loss(name, algo))(policy, buf)
-    gnorm = float(optax.global_norm(eqx.filter(g, eqx.is_inexact_array)))
     ref_opt = optax.chain(optax.clip_by_global_norm(case["mgn"]), optax.adam(case["lr"]))
-    upd, _ = ref_opt.update(g, ref_opt.init(params), params)
-    exp = eqx.apply_updates(policy, upd)
-    moved = False
-    for a, b, c in zip(jax.tree.leaves(eqx.filter(new_policy, eqx.is_inexact_array)), jax.tree.leaves(eqx.filter(exp, eqx.is_inexact_array)), jax.tree.leaves(params)):
-        ctx.close(a, b, "C08/update-not-clip-by-global-norm-then-adam-on-the-objective", rtol=1e-6, atol=1e-10, tags=tags, grad_norm=gnorm, max_grad_norm=case["mgn"])
-        moved |= not np.array_equal(np.asarray(a), np.asarray(c))
+    # Both optimisers first see one random gradient: the very first Adam step is lr*sign(g), blind to the scale of g (and so
+    # to how it was clipped); with non-zero moments the update depends on the gradient itself.
+    leaves, treedef = jax.tree.flatten(params)
+    g0 = jax.tree.unflatten(treedef, [0.3 * jr.normal(k, x.shape, x.dtype) for k, x in zip(jr.split(jr.key(case["pkey"] + 17), len(leaves)), leaves)])
+    s_l = algo.optimizer.update(g0, algo.optimizer.init(params), params)[1]
+    s_r = ref_opt.update(g0, ref_opt.init(params), params)[1]
+    loss = _jnp_loss(name, algo)
+    base, moved, gnorm = policy, False, 0.0
+    for step in (1, 2):  # the second step runs on the optimiser state the first one returned
+        new_policy, s_l = _train_step(algo, name, base, s_l, buf, jr.key(step))
+        g = eqx.filter_grad(loss)(base, buf)
+        gnorm = max(gnorm, float(optax.global_norm(eqx.filter(g, eqx.is_inexact_array))))
+        upd, s_r = ref_opt.update(g, s_r, eqx.filter(base, eqx.is_inexact_array))
+        exp = eqx.apply_updates(base, upd)
+        for a, b, c in zip(jax.tree.leaves(eqx.filter(new_policy, eqx.is_inexact_array)), jax.tree.leaves(eqx.filter(exp, eqx.is_inexact_array)), jax.tree.leaves(eqx.filter(base, eqx.is_inexact_array))):
+            ctx.close(a, b, "C08/update-not-clip-by-global-norm-then-adam-on-the-objective", rtol=1e-6, atol=1e-10, tags=tags, step=step, grad_norm=gnorm, max_grad_norm=case["mgn"])
+            moved |= not np.array_equal(np.asarray(a), np.asarray(c))
+        base = new_policy
     ctx.check(moved, "C08/update-did-not-change-the-policy", tags=tags)
     clipped = gnorm > case["mgn"]
     ctx.count(nontrivial=True, classes=[name, kind, "norm_clipped" if clipped else "norm_unclipped"], key=[name, kind, case["pkey"] % 64, clipped, case["clip_v"], case["normalize"]])
 
 
-PARTS = {"losses": oracle_losses, "optimiser": oracle_optimiser}
+def oracle_fresh_data(ctx: Ctx, case):
+    """'On data collected by the current policy every ratio is 1 and the approximate KL is 0', through the real collector:
+    Box actions sampled outside narrow bounds (library MLP policy) are the interesting rows."""
+    from checks.c04_onpolicy_rollout import _build
+    from vlib import onpolicy
+
+    spec, env, policy, interp = _build(case)
+    T = case["T"]
+    algo = onpolicy.with_gamma(onpolicy.algo_template("PPO", 1, T), case["gamma"], case["lam"])
+    s0, c0 = case["start"]
+    ss = onpolicy.step_state(spec, s0, c0, c0)
+    if case.get("policy_kind") == "mlp":
+        ss = eqx.tree_at(lambda x: x.policy_state, ss, None, is_leaf=lambda x: x is None)
+    _, buf = onpolicy.collect(algo, env, policy, ss, jr.key(case["key"]))
+    for normalize in (False, True):
+        loss, stats = _ppo_loss(policy, buf, normalize, 0.2, False, 0.5, 0.0)
+        ctx.close(stats.approx_kl, 0.0, "C08/fresh-data-approx-kl-nonzero", atol=1e-9, tags={"algo": "PPO"})
+        A = np.asarray(buf.advantages, np.float64)
+        if normalize:
+            A = (A - A.mean()) / (A.std() + np.finfo(np.float64).eps)
+        ctx.close(stats.policy_loss, -A.mean(), "C08/fresh-data-surrogate-not-minus-mean-advantage", rtol=1e-9, atol=1e-9, tags={"algo": "PPO"})
+    a = np.asarray(buf.actions, np.float64)
+    outside = bool(interp.box and ((a < np.asarray(spec["act_low"])) | (a > np.asarray(spec["act_high"]))).any())
+    ctx.count(nontrivial=outside or not interp.box, classes=[case["config"]] + ["sample_outside_bounds"] * outside, key=[case["config"], case["key"] % 256, outside])
+
+
+PARTS = {"losses": oracle_losses, "optimiser": oracle_optimiser, "fresh_data": oracle_fresh_data}
 
 
 @st.composite
@@ -302,8 +336,8 @@ def run(ctx: Ctx):
         "MLPActorCriticPolicy over Discrete/Box scalar/Box vector/MultiBinary/MultiDiscrete actions with drawn weights, all "
         "flag/coefficient settings: PPO.ppo_loss, A2C.a2c_loss, REINFORCE.reinforce_loss values and every stats field vs float64 "
         "NumPy formulas built from the policy's own per-sample (value, log-prob, entropy); per-row gradient support of the clipped "
-        "surrogate; one optimiser step vs clip_by_global_norm+adam applied by the harness to the gradient of a float64 jnp "
-        "transcription. Non-trivial: rows in all four (ratio side x advantage sign) quadrants and, with value clipping, both "
+        "surrogate; two chained optimiser steps (from a state with non-zero moments, the second on the state the first returned) vs "
+        "clip_by_global_norm+adam applied by the harness to the gradient of a float64 jnp transcription; rollouts collected by the real collector with the library MLP policy (Box samples outside narrow bounds) give approx_kl 0 and a surrogate of -mean(A). Non-trivial: rows in all four (ratio side x advantage sign) quadrants and, with value clipping, both "
         "orderings of clipped/unclipped errors."
     )
     ctx.assumptions = ["the policy's evaluate_action outputs are the trusted per-sample quantities (C15/C16 check them)", "x64", "optax as the configured optimiser library"]
@@ -313,4 +347,8 @@ def run(ctx: Ctx):
             ctx.run_given("losses", loss_cases(kind, N), oracle_losses, ctx.n(60, 1500))
     for algo, kind in (("PPO", "discrete"), ("PPO", "box_vec"), ("A2C", "multibinary"), ("REINFORCE", "box_scalar")) + ((("PPO", "multidiscrete"), ("A2C", "discrete")) if not ctx.quick else ()):
         ctx.run_given("optimiser", opt_cases(algo, kind), oracle_optimiser, ctx.n(16, 300), shrink=False)
+    from checks.c04_onpolicy_rollout import rollout_cases
+
+    for config in ("box-scalar", "disc-onehot") if ctx.quick else ("box-scalar", "box-vec2", "disc-onehot", "disc-masked"):
+        ctx.run_given("fresh_data", rollout_cases(config, 16, "some", algos=("PPO",), policy_kind="mlp"), oracle_fresh_data, ctx.n(30, 500), shrink=False)
     ctx.require_fraction("losses", "nontrivial", 0.2)
